@@ -243,3 +243,43 @@ def run(ctx):
     # ---------------------------------------------------------------- E1
     run_e1(ctx, ENTRY, stop_pattern=STOP)
     r.floor('write-gate', 'write_mutators', r.counts.get('write_mutators', 0), 3)
+    whole_write_only_without_range(ctx)
+
+
+def whole_write_only_without_range(ctx, rule='range-dispatch'):
+    """a Value write that names an index range must go through set_value_range (which rejects what it cannot apply): in
+    Variable::set_value the whole-value path set_value_direct is taken only when the request's range is NumericRange::None -
+    decided by the parameter itself or by a predicate that answers false only for None"""
+    r, db = ctx.r, ctx.db
+    b = db.body('server::address_space::variable::Variable::set_value')
+    if b is None:
+        r.lost(rule, 'Variable::set_value', 'not found'); return
+    F = ctx.facts(b)
+    ds = [c for c in b.calls() if c.callee.endswith('Variable::set_value_direct')]
+    rs = [c for c in b.calls() if c.callee.endswith('Variable::set_value_range')]
+    if not ds or not rs:
+        r.lost(rule, 'calls', 'set_value_direct / set_value_range calls not found in Variable::set_value'); return
+    ps = b.local_by_name('index_range')
+    P = r'index_range\(_%d\)' % ps[0] if ps else r'index_range\(_\d+\)'
+    for i, c in enumerate(ds):
+        ok = None
+        for l, e in F.literals_at(c.bb):
+            t = fmt_lit(b, l)
+            if re.match(r'^%s (is|eq) (NumericRange::)?None$' % P, t):
+                ok = 'index_range is None'
+            if l[0] == 'truth' and l[1][0] == 'call' and db.body(l[1][1]) is not None and [fmt_sym(b, a) for a in l[1][2]] == ['&' + (b.local_name(ps[0]) if ps else '')]:
+                outs = bool_fn_outcomes(ctx, l[1][1], l[2])
+                hb = db.body(l[1][1])
+                if outs and all(any(re.match(r'^\(\*self\(_1\)\) (eq|is) (NumericRange::)?None$', fmt_lit(hb, x)) for x in conj) for conj in outs):
+                    ok = '%s == %s, which it is only for NumericRange::None' % (fmt_sym(b, l[1])[:60], l[2])
+        if ok:
+            r.ok(rule, 'direct#%d' % i, 'the whole value is replaced only when no index range was given (%s)' % ok, loc=c.loc)
+        else:
+            r.fail(rule, 'direct#%d' % i, 'Variable::set_value replaces the whole value although the write may name an index range (guards: %s): a ranged write that must be '
+                   'rejected or applied to part of the array overwrites everything' % [fmt_lit(b, l)[:60] for l, e in F.literals_at(c.bb)], loc=c.loc)
+    for i, c in enumerate(rs):
+        a = fmt_sym(b, F.sym_operand(c.args[2]))
+        if re.match(r'^%s$' % P, a):
+            r.ok(rule, 'range#%d' % i, 'set_value_range receives the request\'s index range', loc=c.loc)
+        else:
+            r.fail(rule, 'range#%d' % i, 'set_value_range is given %s, not the request\'s index range' % a[:60], loc=c.loc)
